@@ -340,10 +340,20 @@ def s1(ctx, units, prop_module, theorems, extra_targets=()):
     res = {"ok": True, "broken": []}
     dig = regen(units)
     ctx.coverage["translated_units"] = dig
+    res["fallback"] = []
+    rel0 = prop_module.replace(".", "/") + ".v"
+    cone0 = set(module_cone(rel0)) | {f for t in extra_targets for f in module_cone(t[:-1] if t.endswith(".vo") else t)}
+    unit_files = {"Static": ["Gen/Dataclasses.v", "Gen/WriteSites.v"]}
     for u, d in dig.items():
+        if not any(f in cone0 for f in unit_files.get(u, [f"Gen/{u}.v"])):
+            continue            # this property's theorems and checkers do not depend on that unit
         if str(d).startswith("REFUSED"):
             res["ok"] = False
             res["broken"].append({"kind": "translator-refused", "unit": u, "detail": d})
+        elif str(d).startswith("FALLBACK"):
+            res["fallback"].append(u)
+            ctx.notes.append(f"translator refused the current text of unit {u} ({d[10:]}); the committed reference translation "
+                             f"coq/Ref/{u}.v is used and tied to the code by direct correspondence on this run")
     rel = prop_module.replace(".", "/") + ".v"
     cone = module_cone(rel)
     bad = forbidden_in(cone)
@@ -365,6 +375,16 @@ def s1(ctx, units, prop_module, theorems, extra_targets=()):
         res["broken"].append({"kind": "proof-or-model-does-not-check", "where": fs, "log_tail": log[-1500:]})
         ctx.coverage["trusted_base"] = ["(proof build failed on this run)"]
         return res
+    if "Slice" in res["fallback"]:
+        # the reference kernels must agree with the real Slice methods on every small window pair
+        import kernels
+        build(["Model/CheckKernels.vo"])
+        n, bad, errors = kernels.slice_differential()
+        ctx.coverage["slice_kernel_correspondence"] = {"cases": n, "disagreements": len(bad), "eval_errors": len(errors)}
+        if bad or errors or n == 0:
+            res["ok"] = False
+            res["broken"].append({"kind": "reference-kernel-disagrees-with-the-code", "unit": "Slice",
+                                  "first_disagreement": (bad or [None])[0], "errors": [e[1][-400:] for e in errors[:1]]})
     ax, out = print_assumptions(ctx.prop, theorems, prop_module)
     if ax is None:
         res["ok"] = False
